@@ -137,6 +137,35 @@ partial def eqModLeaky (cfg : Config) (inp erased : Node) : Bool :=
 
 /-! ### per property oracles on (config, input tree, real output tree, record fields) -/
 
+
+/-! ### `delete` needs a reference: its operand is never one of the shapes the rewriter injects -/
+
+def stripParens : Node → Node
+  | .paren e _ => stripParens e
+  | n => n
+
+/-- a hook call, a call through a temporary, a sequence that assigns a temporary, a lowered guard -/
+def injectedShape (n : Node) : Bool :=
+  match n with
+  | .seq es _ => headIsTempAssign es
+  | .call c _ _ => (match calleeKind c with | .plain => false | _ => true)
+  | .cond .. => (isLoweredGuard n).isSome
+  | _ => false
+
+/-- `delete X` of the output where `X` (parentheses aside) is a value the rewriter built: the property is
+    no longer removed, `delete` just answers `true` -/
+def rewrittenDeleteOperands (out : Node) : List Node :=
+  Node.collect (fun k => match k with
+    | .unary op a _ => isDelete op && injectedShape (stripParens a)
+    | _ => false) out
+
+/-- guards of lowered optional chains (`t == null ? undefined : …`, no source position) -/
+def loweredGuards (out : Node) : Nat := Node.count (fun k => (isLoweredGuardAny k)) out
+where
+  isLoweredGuardAny : Node → Bool
+    | .cond (.bin "==" _ (.lit "NullLiteral" _ _ _) _) (.ident (.user "undefined") usp) _ csp => csp.isDummy && usp.isDummy
+    | _ => false
+
 structure RealOut where
   cfg : Config
   pfx : String
@@ -165,7 +194,8 @@ def checkC02 (r : RealOut) : List Finding :=
   let dups := duplicatedEffectful r.out
   let mdups := (duplicatedMemberReads r.out).eraseDups
   f1 ++ (dups.map fun d => ⟨"C02", dupClass r.out d, shortN r d⟩) ++
-    (mdups.map fun d => ⟨"C02", "member-access-read-twice", shortN r d⟩)
+    (mdups.map fun d => ⟨"C02", "member-access-read-twice", shortN r d⟩) ++
+    ((rewrittenDeleteOperands r.out).map fun d => ⟨"C02", "delete-operand-replaced-by-a-value", shortN r d⟩)
 
 def checkC03 (r : RealOut) : List Finding :=
   if r.status != "Modified" || !NoNs r.inp then [] else
@@ -185,6 +215,10 @@ def checkC05 (r : RealOut) : List Finding :=
   (if (names.filter fun n => !inNames.contains n).all fun n => r.cfg.dsts.contains n then []
    else [⟨"C05", "hook-name-not-configured", toString (names.filter fun n => !r.cfg.dsts.contains n)⟩]) ++
   (if r.cfg.methods.isEmpty && r.status != "NotModified" then [⟨"C05", "modified-under-empty-method-list", r.status⟩] else []) ++
+  -- an optional chain is lowered only to reach a configured method called on it: an input without such a
+  -- chain comes back without any lowered guard
+  (if NoNs r.inp && !hasTrigger r.cfg r.inp && loweredGuards r.out > loweredGuards r.inp then
+     [⟨"C05", "optional-chain-lowered-though-no-configured-method-is-called-on-it", toString (loweredGuards r.out)⟩] else []) ++
   -- the prologue (the statement that tests `typeof _ddiast`) comes before every statement that holds a hook
   -- call which was not in the input: else that hook runs before the pass-through object exists
   (if r.status != "Modified" || !NoNs r.inp then [] else
